@@ -9,8 +9,8 @@ CFG = {
             "ConstAt/Float64At is compared (exact policy) with a dense model made of free-standing library scalars, Dim/Dims with the model, and (every step "
             "in half of the histories, else with p=0.15 and at the end) a fresh ConstIterator must visit exactly the model's non-zero positions once in "
             "ascending order; live iterators must yield ascending, currently non-zero positions with the model's value. Operands from the dyadic grid so "
-            "results are order independent. non-trivial = history with >=1 mutation followed by >=1 full read; distinct by type+trace hash. Histories that "
-            "reach an element with value 0 but a non-zero derivative stop there (the property does not define whether that is a 'non-zero element').",
+            "results are order independent. non-trivial = history with >=1 mutation followed by >=1 full read; distinct by type+trace hash. An element "
+            "is 'non-zero' iff its value or any derivative slot is non-zero (the containers' own nullScalar rule).",
     "min_cov": {"vec-op:Swap": 300, "vec-op:Permute": 100, "vec-op:Sort": 50, "vec-op:Set": 100, "vec-op:arith": 300, "vec-op:arith-inplace": 100,
                 "vec-op:arith-operand": 100, "vec-op:AppendVector": 100, "vec-op:iter-next": 300, "vec-op:Slice": 100,
                 "mat-op:Swap": 200, "mat-op:Tip": 50, "mat-op:T": 50, "mat-op:MdotM": 50, "mat-op:Set": 50, "mat-op:SetIdentity": 50,
